@@ -469,6 +469,10 @@ func (vc *VC) evalSelector(fr *frame, st *State, x *ast.SelectorExpr) Val {
 	switch sel.Kind() {
 	case types.FieldVal:
 		path := sel.Index()
+		if ep, ok := vc.elemPtrOf(fr, st, x.X); ok && len(path) == 1 {
+			f := structOf(ep.Elem).Field(path[0])
+			return vc.loadElemPath(st, ep.Key+"."+f.Name(), f.Type(), MkSlice(ep.Base, ep.Idx, IntLit(1), IntLit(1)), IntLit(0))
+		}
 		if ref, t, ok := vc.selBase(fr, st, x.X); ok {
 			r, ok2 := vc.walkRef(st, ref, t, path[:len(path)-1], x.Pos())
 			if ok2 {
@@ -750,6 +754,14 @@ func (vc *VC) evalUnary(fr *frame, st *State, x *ast.UnaryExpr) Val {
 	case token.AND:
 		if cl, ok := x.X.(*ast.CompositeLit); ok {
 			return vc.evalComposite(fr, st, cl, true)
+		}
+		if ix, ok := x.X.(*ast.IndexExpr); ok {
+			if sl, ok := fr.typeOf(ix.X).Underlying().(*types.Slice); ok && structOf(sl.Elem()) != nil {
+				s := vc.term(vc.evalExpr(fr, st, ix.X))
+				i := vc.term(vc.evalExpr(fr, st, ix.Index))
+				vc.oblige(st, "safety", "index", ix.Pos(), And(Le(IntLit(0), i), Lt(i, SLen(s))), "index out of range")
+				return &ElemPtr{Elem: sl.Elem(), Key: vc.elemKey(sl.Elem()), Base: SBase(s), Idx: vc.define("ix", Add(SOff(s), i))}
+			}
 		}
 		if ref, ok := vc.evalAddr(fr, st, x.X); ok {
 			return ref
@@ -1439,4 +1451,68 @@ func (vc *VC) boxArray(fr *frame, st *State, e ast.Expr, at *types.Array) (Term,
 	vc.checkFrm = saved
 	st.vars[o] = Term{base.S, SBox}
 	return base, true
+}
+
+
+// elemPtrOf evaluates e when it is a call returning a pointer to a struct and the callee yields a pointer to
+// a slice element (an *ElemPtr value), e.g. s.top() with top returning &s.data[len(s.data)-1].
+func (vc *VC) elemPtrOf(fr *frame, st *State, e ast.Expr) (*ElemPtr, bool) {
+	for {
+		if p, ok := e.(*ast.ParenExpr); ok {
+			e = p.X
+			continue
+		}
+		break
+	}
+	call, ok := e.(*ast.CallExpr)
+	if !ok {
+		return nil, false
+	}
+	t := fr.typeOf(call)
+	if t == nil {
+		return nil, false
+	}
+	pt, ok := t.Underlying().(*types.Pointer)
+	if !ok || structOf(pt.Elem()) == nil {
+		return nil, false
+	}
+	// only calls to module functions without a contract (inlined) can yield an element pointer
+	var fobj types.Object
+	switch f := call.Fun.(type) {
+	case *ast.Ident:
+		fobj = fr.ctx.info.ObjectOf(f)
+	case *ast.SelectorExpr:
+		fobj = fr.ctx.info.ObjectOf(f.Sel)
+	}
+	fo, ok := fobj.(*types.Func)
+	if !ok {
+		return nil, false
+	}
+	fi, ok := vc.P.ByObj[fo]
+	if !ok || !vc.returnsElemPtr(fi) {
+		return nil, false
+	}
+	v := vc.evalExpr(fr, st, call)
+	ep, ok := v.(*ElemPtr)
+	return ep, ok
+}
+
+// returnsElemPtr: the function body is `...; return &x.f[i]` (syntactic check on its last statement).
+func (vc *VC) returnsElemPtr(fi *FuncInfo) bool {
+	if fi.Decl.Body == nil || len(fi.Decl.Body.List) == 0 {
+		return false
+	}
+	if ct := vc.P.Specs.Contracts[fi.Key]; ct != nil && !ct.Inline && (len(ct.Ensures) > 0 || len(ct.Requires) > 0 || ct.HasMod || ct.Trusted) {
+		return false
+	}
+	ret, ok := fi.Decl.Body.List[len(fi.Decl.Body.List)-1].(*ast.ReturnStmt)
+	if !ok || len(ret.Results) != 1 {
+		return false
+	}
+	u, ok := ret.Results[0].(*ast.UnaryExpr)
+	if !ok || u.Op != token.AND {
+		return false
+	}
+	_, ok = u.X.(*ast.IndexExpr)
+	return ok
 }
